@@ -87,11 +87,11 @@ FAMILIES = {
     'Eq2': {   # two constraints, so that constraint order matters
         'quick':    dict(module='FMEqGen', spec='ESpec', emit='EEmit', emit_all=False,
                          consts=dict(N=2, MaxKids=1, MinHi=1, Axes={'ctc'}, MaxCtc=2, CtcDepth=1, CtcBinOps={'OR', 'EXCLUDES'},
-                                     Strategies={'revctcs', 'revall'}),
+                                     Strategies={'revctcs', 'revall', 'casectc'}),
                          invariants=['InvWellFormed', 'L11_Eq']),
         'thorough': dict(module='FMEqGen', spec='ESpec', emit='EEmit', emit_all=False,
                          consts=dict(N=3, MaxKids=2, MinHi=1, Axes={'ctc'}, MaxCtc=2, CtcDepth=1, CtcBinOps={'OR', 'EXCLUDES'},
-                                     Strategies={'revctcs', 'revall'}),
+                                     Strategies={'revctcs', 'revall', 'casectc'}),
                          invariants=['InvWellFormed', 'L11_Eq']),
     },
 }
@@ -147,7 +147,7 @@ def fmt_families(fmt, ops, attr_vals=None, star=False, abstract=True, extra=None
     return fams
 
 
-FAMILIES.update(fmt_families('json', LOGIC_BIN, ATTR_VALS_JSON))
+FAMILIES.update(fmt_families('json', LOGIC_BIN, ATTR_VALS_JSON, star=True))
 
 FAMILIES.update(fmt_families('glencoe', LOGIC_BIN, None, abstract=False))
 FAMILIES.update(fmt_families('fide', ALL_OPS_NOT_XOR, None))
@@ -213,6 +213,12 @@ FAMILIES.update({
                          invariants=tlc.GEN_INVARIANTS),
         'thorough': dict(consts=dict(N=5, MaxKids=3, MinHi=1, Axes={'ctc'}, MaxCtc=1, CtcDepth=1, CtcBinOps=LOGIC_BIN, CtcMinFeatures=3),
                          invariants=tlc.GEN_INVARIANTS, cap=60000),
+    },
+    'Clafer-Ctc2': {   # nesting: every tree of depth 2 over two names
+        'quick':    dict(consts=dict(N=2, MaxKids=1, MinHi=1, Axes={'ctc'}, MaxCtc=1, CtcDepth=2, CtcBinOps=LOGIC_BIN, CtcMinFeatures=2),
+                         invariants=tlc.GEN_INVARIANTS, cap=4000),
+        'thorough': dict(consts=dict(N=2, MaxKids=1, MinHi=1, Axes={'ctc'}, MaxCtc=1, CtcDepth=2, CtcBinOps=LOGIC_BIN, CtcMinFeatures=2),
+                         invariants=tlc.GEN_INVARIANTS),
     },
     'Clafer-Attr': {
         'quick':    dict(consts=dict(N=2, MaxKids=1, MinHi=1, Axes={'attr'}, AttrNames=['a1', 'a2'],
